@@ -72,6 +72,71 @@ theorem asserts_taskOk_msg {s st st2 : St} {o li : Nat} {ob0 ob : Obj} {layer0 l
     TaskOk st2.envs (.eval me env false d) :=
   taskOk_mono ((asserts_taskOk hl0 hc hob ⟨ob, layer, hobj, hlay, henv⟩ hI' hS1).2 me hm) hS2
 
+/-! ### Walking over the visible fields of an object (`NamesOk`: `EvalScopeStd`) -/
+
+/-- `.deep` on an object -/
+def deepObj (cfg : Cfg) (rec : Task → M Value) (o : OId) (d : Nat) : M Value := do
+  let _ ← rec (.asserts o d)
+  for name in visibleFields (← getObj o) do
+    let some t ← fieldThunk o 0 name | throw (.internal "visible field without thunk")
+    let need ← match ← getThunk t with
+      | .done (.arr _) => pure true
+      | .done (.obj _) => pure true
+      | .done _ => pure false
+      | _ => pure true
+    if need then
+      checkDepth cfg (d + 1)
+      let fv ← rec (.force t (d + 1))
+      let _ ← rec (.deep fv (d + 1))
+  pure (.obj o)
+
+theorem step_deep_obj_eq (cfg : Cfg) (rec : Task → M Value) (o : OId) (d : Nat) :
+    step cfg rec (.deep (.obj o) d) = deepObj cfg rec o d := by
+  unfold step deepObj; rfl
+
+/-- `.manifest` on an object -/
+def manifestObj (cfg : Cfg) (rec : Task → M Value) (o : OId) (d : Nat) (canon : Bool) : M Value := do
+  let _ ← rec (.asserts o d)
+  let names := visibleFields (← getObj o)
+  if names.isEmpty then return .str (if canon then "{}" else "{ }")
+  let mut parts : List String := []
+  for name in names do
+    let some t ← fieldThunk o 0 name | throw (.internal "visible field without thunk")
+    checkDepth cfg (d + 1)
+    let fv ← rec (.force t (d + 1))
+    let s ← recStr rec (.manifest fv (d + 1) canon)
+    parts := parts ++ [if canon then strHex name ++ ":" ++ s else jsonEscape name ++ ": " ++ s]
+  pure (.str ("{" ++ (if canon then "," else ", ").intercalate parts ++ "}"))
+
+theorem step_manifest_obj_eq (cfg : Cfg) (rec : Task → M Value) (o : OId) (d : Nat) (canon : Bool) :
+    step cfg rec (.manifest (.obj o) d canon) = manifestObj cfg rec o d canon := by
+  unfold step manifestObj; rfl
+
+/-- `.equals` on two objects -/
+def equalsObj (cfg : Cfg) (rec : Task → M Value) (x y : OId) (d : Nat) : M Value := do
+  let xf := visibleFields (← getObj x)
+  let yf := visibleFields (← getObj y)
+  if xf != yf then return .bool false
+  let mut first := true
+  for name in xf do
+    checkDepth cfg (d + 1)
+    if first then
+      let _ ← rec (.asserts x (d + 1))
+      let _ ← rec (.asserts y (d + 1))
+      first := false
+    let some xt ← fieldThunk x 0 name | throw (.internal "visible field without thunk")
+    let some yt ← fieldThunk y 0 name | throw (.internal "visible field without thunk")
+    let xv ← rec (.force xt (d + 1))
+    let yv ← rec (.force yt (d + 1))
+    match ← rec (.equals xv yv (d + 1)) with
+    | .bool true => pure ()
+    | _ => return .bool false
+  pure (.bool true)
+
+theorem step_equals_obj_eq (cfg : Cfg) (rec : Task → M Value) (x y : OId) (d : Nat) :
+    step cfg rec (.equals (.obj x) (.obj y) d) = equalsObj cfg rec x y d := by
+  unfold step equalsObj; rfl
+
 section
 variable (cfg : Cfg) (rec : Task → M Value) (hrec : RecOk rec)
 include hrec
@@ -126,6 +191,78 @@ macro "tcase" : tactic => `(tactic|
    all_goals vcprep
    all_goals eclose))
 
+set_option hygiene false in
+/-- a walk over the visible fields of objects: the closers of the verification conditions -/
+macro "ocase" : tactic => `(tactic|
+  (all_goals clear g1 g2 g3 g4 h1 hr
+   all_goals vcprep
+   all_goals first
+     | eclose
+     | exact ⟨by assumption, by schain, (NamesOk.mono (by assumption) (by schain)).tail⟩
+     | exact ⟨by assumption, by schain, (NamesOk.mono (by assumption) (by schain)).tail,
+         (NamesOk.mono (by assumption) (by schain)).tail⟩
+     | exact ⟨by assumption, by schain, NamesOk.visible (by assumption)⟩
+     | (exfalso
+        exact NamesOk.found_false (by assumption) (by assumption) (by assumption) (by schain))))
+
+theorem deepObj_spec (s : St) (o : OId) (d : Nat) (hI : Inv s) :
+    ⦃fun st => ⌜st = s⌝⦄ deepObj cfg rec o d ⦃Q s (fun _ _ => True)⦄ := by
+  have g1 := getThunk_spec
+  have g2 := checkDepth_spec
+  have g3 := fieldThunk_spec
+  have g4 := getObj_spec
+  have h1 := recStr_spec rec hrec
+  have hr := rec_spec rec hrec
+  qstart
+  unfold deepObj
+  mvcgen [g1, g2, g3, g4, h1, hr]
+  case inv1 =>
+    exact ⟨fun (cur, _) st => ⌜Inv st ∧ S s st ∧ NamesOk st o cur.suffix⌝,
+      fun e st => ⌜(NonPanic e → Inv st) ∧ Good e⌝, fun _ => ⌜True⌝, ()⟩
+  ocase
+
+theorem manifestObj_spec (s : St) (o : OId) (d : Nat) (canon : Bool) (hI : Inv s) :
+    ⦃fun st => ⌜st = s⌝⦄ manifestObj cfg rec o d canon ⦃Q s (fun _ _ => True)⦄ := by
+  have g1 := getThunk_spec
+  have g2 := checkDepth_spec
+  have g3 := fieldThunk_spec
+  have g4 := getObj_spec
+  have h1 := recStr_spec rec hrec
+  have hr := rec_spec rec hrec
+  qstart
+  unfold manifestObj
+  mvcgen [g1, g2, g3, g4, h1, hr]
+  case inv1 =>
+    exact ⟨fun (cur, _) st => ⌜Inv st ∧ S s st ∧ NamesOk st o cur.suffix⌝,
+      fun e st => ⌜(NonPanic e → Inv st) ∧ Good e⌝, fun _ => ⌜True⌝, ()⟩
+  ocase
+
+theorem equalsObj_spec (s : St) (x y : OId) (d : Nat) (hI : Inv s) :
+    ⦃fun st => ⌜st = s⌝⦄ equalsObj cfg rec x y d ⦃Q s (fun _ _ => True)⦄ := by
+  have g1 := getThunk_spec
+  have g2 := checkDepth_spec
+  have g3 := fieldThunk_spec
+  have g4 := getObj_spec
+  have h1 := recStr_spec rec hrec
+  have hr := rec_spec rec hrec
+  qstart
+  unfold equalsObj
+  mvcgen [g1, g2, g3, g4, h1, hr]
+  case inv1 =>
+    exact ⟨fun (cur, _) st => ⌜Inv st ∧ S s st ∧ NamesOk st x cur.suffix ∧ NamesOk st y cur.suffix⌝,
+      fun e st => ⌜(NonPanic e → Inv st) ∧ Good e⌝, fun _ => ⌜True⌝, ()⟩
+  all_goals clear g1 g2 g3 g4 h1 hr
+  all_goals vcprep
+  all_goals first
+     | eclose
+     | exact ⟨by assumption, by schain, (NamesOk.mono (by assumption) (by schain)).tail,
+         (NamesOk.mono (by assumption) (by schain)).tail⟩
+     | (exfalso
+        exact NamesOk.found_false (by assumption) (by assumption) (by assumption) (by schain))
+     | exact ⟨by assumption, by schain, (NamesOk.mono (by assumption) (by schain)).nil,
+         (NamesOk.mono (by assumption) (by schain)).nil⟩
+     | exact ⟨hI, S.refl _, namesOk_pair (by assumption) (by assumption) (by assumption)⟩
+
 set_option maxHeartbeats 1000000 in
 theorem step_walk (s : St) (t : Task) (hI : Inv s)
     (ht : match t with | .deep .. | .manifest .. | .equals .. | .compare .. => True | _ => False) :
@@ -138,12 +275,23 @@ theorem step_walk (s : St) (t : Task) (hI : Inv s)
   have h1 := recStr_spec rec hrec
   have h8 := compareLists_spec cfg rec hrec
   have hr := rec_spec rec hrec
-  qstart
   cases t with
-  | deep v d => tcase
-  | manifest v d c => tcase
-  | equals a b d => tcase
-  | compare a b d => tcase
+  | deep v d =>
+    cases v with
+    | obj o => rw [step_deep_obj_eq]; exact deepObj_spec cfg rec hrec s o d hI
+    | _ => qstart; tcase
+  | manifest v d c =>
+    cases v with
+    | obj o => rw [step_manifest_obj_eq]; exact manifestObj_spec cfg rec hrec s o d c hI
+    | _ => qstart; tcase
+  | equals a b d =>
+    cases a with
+    | obj x =>
+      cases b with
+      | obj y => rw [step_equals_obj_eq]; exact equalsObj_spec cfg rec hrec s x y d hI
+      | _ => qstart; tcase
+    | _ => qstart; tcase
+  | compare a b d => qstart; tcase
   | force => exact ht.elim
   | asserts => exact ht.elim
   | eval => exact ht.elim
